@@ -486,4 +486,63 @@ def tdMOp {α : Type} (op : MOp) : TD α → Except Err (List (TD α))
         let ps ← splitPieces splitSize (bs.getD nd 0)
         pure (splitNode ps nd bs names es)
 
+/-! ### repeat / repeat_interleave / stack / cat -/
+
+mutual
+/-- base.py:repeat → _td.py:_repeat (after the names fix and the negative-repeats fix): every leaf gets
+`leaf.repeat(*repeats, *((1,) * (leaf.ndim - self.ndim)))`, a nested tensordict the same call -/
+def repeatNode {α : Type} (reps : List Int) (bs : Shape) (names : Names) (es : List (String × TD α)) : Except Err (TD α) :=
+  if reps.length ≠ bs.length then .error .value
+  else if reps.any (· < 0) then .error .runtime
+  else
+    match repeatEntries (reps.map Int.toNat) bs.length es with
+    | .error e => .error e
+    | .ok es' => .ok (.node (List.zipWith (· * ·) bs (reps.map Int.toNat)) (normNames names) es')
+termination_by (sizeOf es, 1)
+
+def repeatEntries {α : Type} (r : List Nat) (n : Nat) : List (String × TD α) → Except Err (List (String × TD α))
+  | [] => .ok []
+  | (k, e) :: rest =>
+    match repeatEntry r n e with
+    | .error err => .error err
+    | .ok e' => match repeatEntries r n rest with
+      | .error err => .error err
+      | .ok rest' => .ok ((k, e') :: rest')
+termination_by es => (sizeOf es, 0)
+
+def repeatEntry {α : Type} (r : List Nat) (n : Nat) : TD α → Except Err (TD α)
+  | .leaf t => if t.rank < n then .error .runtime else .ok (.leaf (t.repeat (r ++ List.replicate (t.rank - n) 1)))
+  | .node bs2 nm2 es2 => repeatNode (natsToInts (r ++ List.replicate (bs2.length - n) 1)) bs2 nm2 es2
+termination_by e => (sizeOf e, 0)
+end
+
+mutual
+/-- _td.py:repeat_interleave with an explicit `dim` on a batch of rank ≥ 1 (after the dim range-check fix and the
+negative-repeats fix); `dim=None` and the 0-d batch go through reshape/unsqueeze first and are oracle-only -/
+def riNode {α : Type} (r : Int) (d : Int) (bs : Shape) (names : Names) (es : List (String × TD α)) : Except Err (TD α) :=
+  let dc : Int := if d ≥ 0 then d else bs.length + d
+  if ¬ (0 ≤ dc ∧ dc < bs.length) then .error .value
+  else if r < 0 then .error .runtime
+  else
+    match riEntries r.toNat dc.toNat es with
+    | .error e => .error e
+    | .ok es' => .ok (.node (bs.modify dc.toNat (· * r.toNat)) (normNames names) es')
+termination_by (sizeOf es, 1)
+
+def riEntries {α : Type} (r dc : Nat) : List (String × TD α) → Except Err (List (String × TD α))
+  | [] => .ok []
+  | (k, e) :: rest =>
+    match riEntry r dc e with
+    | .error err => .error err
+    | .ok e' => match riEntries r dc rest with
+      | .error err => .error err
+      | .ok rest' => .ok ((k, e') :: rest')
+termination_by es => (sizeOf es, 0)
+
+def riEntry {α : Type} (r dc : Nat) : TD α → Except Err (TD α)
+  | .leaf t => if dc < t.rank then .ok (.leaf (t.repeatInterleave r dc)) else .error .index
+  | .node bs2 nm2 es2 => riNode r dc bs2 nm2 es2
+termination_by e => (sizeOf e, 0)
+end
+
 end TdVerif.C02
